@@ -64,10 +64,18 @@ func (f *Rem) Call(s *slip.Scope, args slip.List, depth int) (result slip.Object
 		var z big.Int
 		_ = z.Rem((*big.Int)(num), div)
 		result = (*slip.Bignum)(&z)
+	case *slip.Ratio:
+		// Exact, the second value of truncate.
+		result = truncate(s, f, args, depth)[1]
 	case slip.Real:
 		div := (d.(slip.Real)).RealValue()
+		if div == 0.0 {
+			slip.ArithmeticPanic(s, depth, f, args, "divide by zero")
+		}
 		nf := num.RealValue()
-		m := math.Remainder(nf, div)
+		// The remainder of a truncating division, math.Remainder rounds the
+		// quotient to the nearest integer.
+		m := math.Mod(nf, div)
 		result = slip.DoubleFloat(m)
 	case slip.Complex:
 		slip.TypePanic(s, depth, "number", num, "real")
